@@ -164,7 +164,8 @@ ElemAttribute::startElement(StylesheetExecutionContext& executionContext) const
 
         XalanDOMString&     attrNameSpace = attrNameSpaceGuard.get();
 
-        if(0 != m_namespaceAVT)
+        if(0 != m_namespaceAVT &&
+           executionContext.isElementPending() == true)
         {
             m_namespaceAVT->evaluate(attrNameSpace, *this, executionContext);
 
@@ -468,7 +469,8 @@ ElemAttribute::execute(StylesheetExecutionContext&  executionContext) const
 
         XalanDOMString&     attrNameSpace = attrNameSpaceGuard.get();
 
-        if(0 != m_namespaceAVT)
+        if(0 != m_namespaceAVT &&
+           executionContext.isElementPending() == true)
         {
             m_namespaceAVT->evaluate(attrNameSpace, *this, executionContext);
 
